@@ -7,6 +7,9 @@ pub trait Service: Actor + Default {
     // service.rs Service::from_registry / try_from_registry (contracts proved in unit svc): the one live registered instance of this type
     fn from_registry(Tracked(w): Tracked<&mut World>) -> (r: Addr<Self>) ensures r.chan() == service_chan::<Self>(), others_ran(old(w), final(w));
     fn try_from_registry(Tracked(w): Tracked<&mut World>) -> (r: Option<Addr<Self>>) ensures r is Some ==> r->0.chan() == service_chan::<Self>(), same_world(old(w), final(w));
+    // service.rs Service::already_running (proved in unit svc): looks the service up under the registry lock and changes nothing; what it
+    // answers depends on what other tasks did to the registry meanwhile (None may also mean: not registered YET)
+    fn already_running(Tracked(w): Tracked<&mut World>) -> (r: Option<bool>) ensures others_ran(old(w), final(w));
 }
 pub uninterp spec fn service_chan<S>() -> int;           // the mailbox of the currently registered live instance of service S
 #[verifier::external_body] #[verifier::accept_recursive_types(A)] pub struct Context<A> { p: core::marker::PhantomData<A> }
